@@ -6,9 +6,26 @@
                                          producer [i0; i1; ..] = fold (acc * 7 + i + 1) from 1000,
                                          then access by req: (shape-of-tensor data
                                          (access-shape probe-results)); every length and the
-                                         element count must be <= 65536 (else bad case) *)
+                                         element count must be <= 65536 (else bad case)
+     (1 4 0 v)                           0-D: From<T> for Tensor<T, 0> / from_scalar, then first /
+                                         scalar / into_scalar: (0 (shape data (0 v) (0 v) (0 v)))
+     (1 4 1 rows cols data rn cn wr wc v)  conversions of the rows x cols matrix over `data`
+                                         (rows, cols <= 64, rows * cols = length data > 0) with the
+                                         names rn, cn and a write of v at (wr, wc); the result is
+                                         the list A..G (grid = every (r, c), r in 0..=rows,
+                                         c in 0..=cols, as options):
+        A  Matrix::into_tensor / TryFrom        (0 (shape grid)) | (1 shape)
+        B  TensorRefMatrix::with_names          (0 (view_shape grid)) | (1 shape)
+        C  Tensor::from(..).into_matrix / Into  (0 (rows cols grid)) | (2)
+        D  MatrixRefTensor::from                (0 (view_rows view_columns grid)) | (2)
+        E  Matrix::try_into_scalar              (0 x) | (1 ())
+        F  write through TensorRefMatrix        (0 (data-after)) | (0 ()) | (1 shape)
+        G  write through MatrixRefTensor        (0 (data-after)) | (0 ()) | (2)
+     (1 4 2 shape data)                  Tensor::try_from, then the From impls of TensorView
+                                         (harness side): (0 (shape data)) | (1 shape) *)
 From Coq Require Import List ZArith NArith Bool.
-From EasyML Require Import Base.Sx Model.Shape Model.Tensor Model.TensorFn.
+From EasyML Require Import Base.Sx Model.Shape Model.Tensor Model.TensorFn Model.Transform
+     Model.C01Conv.
 Import ListNotations.
 
 Definition c01_access (sh : shape) (data : list Z) (req : list name) (probes : list (list N))
@@ -43,8 +60,63 @@ Definition c01_from_fn (sh : shape) (req : list name) (probes : list (list N)) :
                   (access_try_from t req) ])
     (tensor_from_fn sh c01_producer).
 
+Definition sgrid (g : list (list (option Z))) : sx := slist (slist (sopt SZ)) g.
+
+Definition c01_conv_scalar (v : Z) : sx :=
+  let t := tensor_from_scalar v in
+  soutcome (fun t : tensor Z =>
+              SL [ sshape (t_shape t); slist SZ (t_data t);
+                   soutcome SZ (tensor_first t); soutcome SZ (tensor_first t);
+                   soutcome SZ (tensor_first t) ])
+           (Ok t).
+
+Definition c01_conv_matrix (rows cols : N) (data : list Z) (rn cn : name) (wr wc : N) (v : Z) : sx :=
+  let m : mat Z := (rows, cols, data) in
+  let sh := [(rn, rows); (cn, cols)] in
+  let t := tensor_from sh data in
+  SL [ (* A *)
+       soutcome (fun t => SL [ sshape (t_shape t); sgrid (probe_grid rows cols (mrt_get t)) ])
+                (matrix_into_tensor rows cols data rn cn);
+       (* B *)
+       soutcome (fun w => SL [ sshape (trm_shape w);
+                               sgrid (probe_grid rows cols (fun r c => trm_get w [r; c])) ])
+                (trm_with_names m rn cn);
+       (* C *)
+       soutcome (fun m' : mat Z => SL [ sN (mat_rows m'); sN (mat_cols m');
+                                        sgrid (probe_grid rows cols (mat_get m')) ])
+                (obind t tensor_into_matrix);
+       (* D *)
+       soutcome (fun t => SL [ sN (mrt_rows t); sN (mrt_cols t);
+                               sgrid (probe_grid rows cols (mrt_get t)) ]) t;
+       (* E *)
+       soutcome SZ (mat_try_into_scalar m);
+       (* F *)
+       soutcome (fun w => sopt (fun w' => slist SZ (mat_data (trm_src w'))) (trm_set w [wr; wc] v))
+                (trm_with_names m rn cn);
+       (* G *)
+       soutcome (fun t => sopt (fun t' => slist SZ (t_data t')) (mrt_set t wr wc v)) t ].
+
+Definition c01_conv_views (sh : shape) (data : list Z) : sx :=
+  soutcome (fun t : tensor Z => SL [ sshape (t_shape t); slist SZ (t_data t) ])
+           (tensor_try_from sh data).
+
 Definition run_c01 (args : list sx) : sx :=
   match args with
+  | [SZ 4%Z; SZ 0%Z; v] =>
+      match dZ v with Some v => c01_conv_scalar v | None => bad_case end
+  | [SZ 4%Z; SZ 1%Z; rows; cols; data; rn; cn; wr; wc; v] =>
+      match dN rows, dN cols, dlist dZ data, dnat rn, dnat cn, dN wr, dN wc, dZ v with
+      | Some rows, Some cols, Some data, Some rn, Some cn, Some wr, Some wc, Some v =>
+          if (rows <=? 64)%N && (cols <=? 64)%N && (rows * cols =? N.of_nat (length data))%N
+             && negb (Nat.eqb (length data) 0)
+          then c01_conv_matrix rows cols data rn cn wr wc v else bad_case
+      | _, _, _, _, _, _, _, _ => bad_case
+      end
+  | [SZ 4%Z; SZ 2%Z; sh; data] =>
+      match dshape sh, dlist dZ data with
+      | Some sh, Some data => c01_conv_views sh data
+      | _, _ => bad_case
+      end
   | [SZ 1%Z; sh; data; req; probes; write] =>
       match dshape sh, dlist dZ data, dnames req, dlist didx probes,
             dopt (dpair didx dZ) write with
